@@ -105,7 +105,7 @@ def check_one(ctx, src, scopes, config, case):
                 regions, _ = carts.random_regions(ctx.rng, 'zero')
                 p1 = os.path.join(tmpd, ambient.BASE[0] + '.p8')
                 with open(p1, 'wb') as fh:
-                    fh.write(rc.write_p8(regions, src, version=8))
+                    fh.write(rc.write_p8(regions, src, version=ambient.VERSION[0]))
                 argv = [ambient.vflag(), 'luamin'] + (['--keep-names-from-file', keep_file] if config == 'cli_keep_file' else []) + [p1]
                 if tool.main(argv):
                     raise RuntimeError('p8tool luamin failed')
@@ -164,7 +164,7 @@ def check_one(ctx, src, scopes, config, case):
                 ctx.violation('byline not derivable from the output: tokens %r' % ([t.raw[:20] for t in rout[:4]],), case)
                 return
         try:
-            L2 = lua.Lua.from_lines([out], version=8)
+            L2 = lua.Lua.from_lines([out], version=ambient.VERSION[0])
             t2, b2 = L2.get_title(), L2.get_byline()
         except Exception as e:
             ctx.violation('output does not re-parse: %r' % (e,), case)
